@@ -89,10 +89,17 @@ def run(ck):
     env.vars.update(concatenated_packets=buf, current_idx=idx, analysis_queue=sym("analysis_queue", ty=("list", "bytes")), tm_list=sym("tm_list", ty=("list", "bytes")))
     body = [s for s in h.node.body if not (isinstance(s, ast.Expr) and isinstance(s.value, ast.Constant))]
     fn = "__handle_packet_id_match"
+    k_if = next((i for i, s_ in enumerate(body) if isinstance(s_, ast.If)), None)
+    if k_if is not None and k_if > 1 and all(isinstance(s_, (ast.Assign, ast.AnnAssign)) for s_ in body[:k_if]):
+        # further local definitions between the length computation and the test are evaluated, not matched
+        pre_defs = body[1:k_if]
+        body = [body[0]] + body[k_if:]
+    else:
+        pre_defs = []
     if not (len(body) >= 2 and isinstance(body[0], ast.Assign) and isinstance(body[1], ast.If)):
         ck.unknown("P-MUST", fn, "statement skeleton: total = ...; if <does not fit>: re-queue, return (-1, idx) else: append, advance, return (0, idx)", "skeleton not recognised")
         return
-    it.block([body[0]], env, h.module, h, [])
+    it.block([body[0]] + pre_defs, env, h.module, h, [])
     total = env.vars.get(body[0].targets[0].id) if isinstance(body[0].targets[0], ast.Name) else None
     word = T("unpacked", "!H", T("slice", buf, binop("+", idx, C(4)), binop("+", idx, C(6)), ty="bytes"), ty="int")
     ok = total is not None and lin_eq(total, binop("+", word, C(7)))
